@@ -14,7 +14,8 @@ getuid/geteuid of every registered object after the step) and decides whether pr
            reload_object (uid kept, euid 0) and the late initialisation of an object whose creation the master
            aborted (uid "NONAME", euid 0) may announce an object.
   noeuid   an actor other than the master whose euid is 0 at that moment causes no creator_file call (nothing is
-           created on its behalf) - also when the actor is itself an object under construction running its create()
+           created on its behalf) and no compile_object call (no virtual object is made or handed out for it) -
+           also when the actor is itself an object under construction running its create()
   export   export_uid returns 1 only from a caller with euid != 0 onto a target with euid 0; a caller with euid 0
            gets the error
   asked    a seteuid(string) of an existing object reaches the master with exactly that object and string
@@ -98,7 +99,7 @@ def noEuidClause (P : List Obj) (r : StepRec) : Bool :=
   match getO P r.actor with
   | none => true
   | some A =>
-    if r.actor ≠ masterOid ∧ A.euid = none then r.creations.all (fun c => c.ans.isNone) else true
+    if r.actor ≠ masterOid ∧ A.euid = none then r.creations.all (fun c => c.ans.isNone) && r.co.isNone else true
 
 def exportClause (P : List Obj) (r : StepRec) : Bool :=
   match r.op with
